@@ -215,7 +215,7 @@ theorem whole_write_sets_ghost (ed ed1 ed2 ed3 ed4 : Ed) (loc cmd arg path : Byt
     (hx : (if cmd.headD 0 == 120 then some (ed1.modifiedAt 0) else some (true, ed1) : Option (Bool × Ed)) = some (true, ed2))
     (hr : exRegion ed2 loc = some ((0, b0, e0), ed3))
     (hc : ed3.cur = some cur) (hsh : path.headD 0 ≠ 33)
-    (hbe : (if loc.isEmpty then ((0 : Int), ed3.len) else (b0, e0)) = (0, ed3.len))
+    (hbe : (if loc.isEmpty then ((0 : Int), ed3.len) else (b0, e0)) = (0, ed3.len)) (hpne : path ≠ [])
     (hs : lbufSave ed3 cur.lb 0 ed3.len path (hasBang cmd) (if cur.path == path then cur.mtime else 0) = some (none, ed4))
     (hown : cur.path = path ∨ cur.path = []) (hreach : LbReach cur.lb d) :
     ∃ ed5 c5, ecWrite ed loc cmd arg = some (0, ed5) ∧ ed5.cur = some c5 ∧ (modified c5.lb).1 = false ∧
@@ -223,7 +223,7 @@ theorem whole_write_sets_ghost (ed ed1 ed2 ed3 ed4 : Ed) (loc cmd arg path : Byt
       CurGhost ed5.files c5.path (some c5.lb.lines) ed5 ∧
       (ed5.findFile path).map (·.data) = some c5.lb.lines.flatten := by
   obtain ⟨ed5, c5, h1, h2, h3, _, h5, h6, _, _⟩ :=
-    C02.Ex.write_marks_clean_only_if_whole ed ed1 ed2 ed3 ed4 loc cmd arg path b0 e0 0 ed3.len cur hpr hx hr hc hsh hbe
+    C02.Ex.write_marks_clean_only_if_whole ed ed1 ed2 ed3 ed4 loc cmd arg path b0 e0 0 ed3.len cur hpr hx hr hc hsh hbe hpne
       (by simpa using hs)
   obtain ⟨hlb, hclean⟩ := h6 hown ⟨rfl, rfl⟩
   have hlines : c5.lb.lines = cur.lb.lines := by rw [hlb]; rfl
